@@ -80,12 +80,21 @@ func readVarBytes(r io.Reader, numLenBytes int) ([]byte, error) {
 	if err != nil {
 		return nil, err
 	}
-	data := make([]byte, l)
-	if n, err := io.ReadFull(r, data); err != nil {
-		if err == io.EOF || err == io.ErrUnexpectedEOF {
+	if l > math.MaxInt32 {
+		return nil, fmt.Errorf("length %d too large", l)
+	}
+	// Let the buffer grow with the data that is actually there instead of
+	// allocating whatever the length prefix announces.
+	var buf bytes.Buffer
+	if n, err := io.CopyN(&buf, r, int64(l)); err != nil {
+		if err == io.EOF {
 			return nil, fmt.Errorf("short read: expected %d but got %d", l, n)
 		}
 		return nil, err
+	}
+	data := buf.Bytes()
+	if data == nil {
+		data = []byte{}
 	}
 	return data, nil
 }
